@@ -208,6 +208,120 @@ def h_spec_dispatch(eng, names, exps, fmt):
         fm.default_format = saved
 
 
+def h_sort(eng, names, exps, fmt):
+    """the sort function decides the order of the terms and nothing else"""
+    from pint.delegates.formatter._compound_unit_helpers import sort_by_dimensionality, sort_by_display_name, sort_by_unit_name
+
+    ureg = regs.default(eng)
+    unit = ureg.Unit(ureg.UnitsContainer(dict(zip(names, exps))))
+    fm = ureg.formatter
+    saved = fm.default_sort_func
+    short = "~" in fmt
+    disp = {n: (_display(ureg, n, True) if short else n) for n in names}
+    back = {v: k for k, v in disp.items()}
+    dim_order = list(fm.dim_order)
+    inf = covers.infos()
+
+    def dim_key(n):
+        dims = [d for d, _e in inf[n].dims] or ["[]"]
+        for d in dims:
+            if d in dim_order:
+                return (dim_order.index(d), n)
+        return (len(dim_order), n)
+
+    # pint looks at the unit's dimensions in the order its own dimensionality container lists them
+    def dim_key_pint_order(n):
+        dims = list(ureg.get_dimensionality(n)) or ["[]"]
+        for d in dims:
+            if d in dim_order:
+                return (dim_order.index(d), n)
+        return (len(dim_order), n)
+
+    orders = {
+        "unit-name": (sort_by_unit_name, lambda ns: sorted(ns)),
+        "display-name": (sort_by_display_name, lambda ns: sorted(ns, key=lambda n: disp[n])),
+        "dimensionality": (sort_by_dimensionality, lambda ns: sorted(ns, key=dim_key_pint_order)),
+    }
+    try:
+        for oname, (func, expect) in orders.items():
+            fm.default_sort_func = func
+            text = format(unit, fmt)
+            try:
+                terms, _facts = layouts.recognise(fmt, text, ())
+            except layouts.LayoutError as ex:
+                eng.fail(f"sort:{oname}:layout-not-recognised:{fmt}", detail=f"{text!r}: {ex}")
+            got_num = [back.get(d, d) for d, pos, _e in terms if pos == "num"]
+            got_den = [back.get(d, d) for d, pos, _e in terms if pos != "num"]
+            want_num = expect([n for n, e in zip(names, exps) if e > 0])
+            want_den = expect([n for n, e in zip(names, exps) if e < 0])
+            eng.prove(got_num == want_num, f"sort:{oname}:numerator-order:{fmt}")
+            eng.prove(got_den == want_den, f"sort:{oname}:denominator-order:{fmt}")
+            if fmt.replace("~", "") in ("D", "C", "P"):
+                eng.prove(ureg.parse_units(text, as_delta=False) == unit, f"sort:{oname}:same-unit:{fmt}")
+            # an explicit sort_func argument of format_unit wins over the default
+            text2 = fm.format_unit(unit, fmt, sort_func=sort_by_unit_name)
+            fm.default_sort_func = sort_by_unit_name
+            eng.prove(text2 == format(unit, fmt), f"sort:{oname}:explicit-argument-wins:{fmt}")
+    finally:
+        fm.default_sort_func = saved
+
+
+_CUSTOM_CALLS = []
+
+
+def _ensure_custom_format():
+    import pint
+    from pint.delegates.formatter._to_register import REGISTERED_FORMATTERS
+
+    if "Zq" not in REGISTERED_FORMATTERS:
+
+        @pint.register_unit_format("Zq")
+        def _fmt(unit, registry, **options):
+            _CUSTOM_CALLS.append((dict(unit), registry))
+            return "|".join(f"{k}^{v}" for k, v in sorted(unit.items()))
+
+
+def h_custom_format(eng, names, exps):
+    """a format registered with register_unit_format receives the unit's names (symbols with ~)
+    and exponents and the registry; its text is used verbatim, joined to the magnitude"""
+    _ensure_custom_format()
+    ureg = regs.default(eng)
+    x = eng.real("x")
+    uc = ureg.UnitsContainer(dict(zip(names, exps)))
+    u, q = ureg.Unit(uc), ureg.Quantity(x, uc)
+    for short in (False, True):
+        spec = ("~" if short else "") + "Zq"
+        del _CUSTOM_CALLS[:]
+        want = "|".join(f"{k}^{v}" for k, v in sorted(((_display(ureg, n, short), e) for n, e in zip(names, exps))))
+        text = format(u, spec)
+        eng.prove(text == want, f"custom:{spec}:unit-text")
+        eng.prove(len(_CUSTOM_CALLS) == 1 and _CUSTOM_CALLS[0][1] is ureg, f"custom:{spec}:called-once-with-the-registry")
+        if _CUSTOM_CALLS:
+            got = {k: (v.c if hasattr(v, "c") else Fraction(v)) for k, v in _CUSTOM_CALLS[0][0].items()}
+            eng.prove(got == {_display(ureg, n, short): Fraction(e) for n, e in zip(names, exps)}, f"custom:{spec}:receives-names-and-exponents")
+        tq = _norm(format(q, spec))
+        eng.prove(tq == _join(_norm(format(x, "")), want), f"custom:{spec}:quantity")
+        tq = _norm(format(q, ".3f" + spec))
+        eng.prove(tq == _join(_norm(format(x, ".3f")), want), f"custom:{spec}:quantity-with-magnitude-spec")
+    try:
+        import pint
+
+        pint.register_unit_format("Zq")(lambda unit, registry, **o: "")
+    except ValueError:
+        eng.prove(True, "custom:re-registration-refused")
+    else:
+        eng.fail("custom:re-registration-accepted")
+    for builtin in ("D", "P", "L"):
+        try:
+            import pint
+
+            pint.register_unit_format(builtin)(lambda unit, registry, **o: "")
+        except ValueError:
+            eng.prove(True, f"custom:builtin-{builtin}-not-overwritten")
+        else:
+            eng.fail(f"custom:builtin-{builtin}-overwritten")
+
+
 def h_dimensionless(eng):
     ureg = regs.default(eng)
     u = ureg.Unit("")
@@ -253,5 +367,10 @@ def cases(tier, seed):
     for names, exps in sd:
         for fmt in ("D", "~D", "C", "~C", "P", "~P", "H", "~H", "L", "~L", "Lx"):
             out.append(Case("H09.d", f"{fmt}:{'*'.join(f'{n}^{e}' for n, e in zip(names, exps))}", M, "h_spec_dispatch", {"names": names, "exps": exps, "fmt": fmt}, validate=1))
+    for names, exps in [(["second", "meter", "gram"], [1, 1, 1]), (["newton", "meter", "second", "kelvin"], [1, 2, -1, -1]), (["mole", "ampere", "kelvin", "candela"], [1, 1, -1, -2]), (["hour", "inch", "pound"], [-1, 1, 2])]:
+        for fmt in ("D", "~D", "C", "~P", "H", "~L"):
+            out.append(Case("H09.e", f"{fmt}:{'*'.join(f'{n}^{e}' for n, e in zip(names, exps))}", M, "h_sort", {"names": names, "exps": exps, "fmt": fmt}, validate=1))
+    for names, exps in [(["meter"], [1]), (["meter", "second"], [1, -2]), (["newton", "kelvin", "hour"], [2, -1, 1])]:
+        out.append(Case("H09.f", "*".join(f"{n}^{e}" for n, e in zip(names, exps)), M, "h_custom_format", {"names": names, "exps": exps}, validate=1))
     out.append(Case("H09.c", "dimensionless", M, "h_dimensionless", {}, validate=1))
     return out
